@@ -34,6 +34,11 @@ type svBidPre struct {
 	expire   int64
 }
 
+// svBidLean: the quick tier of the crash harnesses keeps the name with the
+// conversation's owner and the conversation active (the thorough tier explores
+// the whole pre-state, as the C02 / C06 harnesses always do).
+var svBidLean bool
+
 func svBidStore(app *App) *bid_data.BidMasterStore {
 	app.Context.extStores.WithState(app.Context.deliver)
 	s, err := app.Context.extStores.Get("extBidMaster")
@@ -65,7 +70,9 @@ func svPreBid(pre *svBidPre) func(e *svEnv) {
 		app := e.app
 		A, B, C := svParty_(0).Addr, svParty_(1).Addr, svParty_(2).Addr
 		// the name
-		pre.domOwner = 2 * sv.Choice("bid.domainOwner", 2)
+		if !svBidLean {
+			pre.domOwner = 2 * sv.Choice("bid.domainOwner", 2)
+		}
 		pre.expire = sv.Int64("bid.domainExpire")
 		sv.Assume(pre.expire >= 0 && pre.expire < 1<<40)
 		pre.onSale = sv.Bool("bid.domainOnSale")
@@ -92,7 +99,11 @@ func svPreBid(pre *svBidPre) func(e *svEnv) {
 			sv.Unreachable("bystander offer")
 		}
 		// the conversation the transactions name
-		pre.state = sv.Choice("bid.state", 4)
+		if svBidLean {
+			pre.state = 1 + sv.Choice("bid.state", 2)
+		} else {
+			pre.state = sv.Choice("bid.state", 4)
+		}
 		pre.deadline = sv.Int64("bid.deadline")
 		sv.Assume(pre.deadline > 0 && pre.deadline < 1<<40)
 		conv := bid_data.NewBidConv(A, string(svTop), bid_data.BidAssetOns, B, pre.deadline, 5)
@@ -310,11 +321,12 @@ func SV_C06_bid_noop() {
 
 // SV_C18_bid_admitted: no crash for the bid family on the mempool path.
 //
-// sv:bounds as SV_C02_bid plus hostile payloads: unknown asset type, the example asset type, decisions outside the enumeration, a well-formed id of no conversation, a registered foreign currency
+// sv:bounds as SV_C02_bid (quick tier: the name stays with the conversation's owner and the conversation is active; thorough: the whole pre-state) plus hostile payloads: unknown asset type, the example asset type, decisions outside the enumeration, a well-formed id of no conversation, a registered foreign currency
 // sv:outside as SV_C18_more_admitted
 // sv:goal no path ends in a panic, os.Exit (logger.Fatal) or application close
 func SV_C18_bid_admitted() {
 	svCurrencyLimit = 3
+	svBidLean = sv.Tier() == 0
 	sv.CrashIsViolation("admitted-tx-crashes-node")
 	m, _, _ := svBidEnv(true)
 	svMoreC18Admitted(m)
@@ -326,6 +338,7 @@ func SV_C18_bid_admitted() {
 // sv:goal no path ends in a panic, os.Exit (logger.Fatal) or application close
 func SV_C18_bid_unvalidated() {
 	svCurrencyLimit = 3
+	svBidLean = sv.Tier() == 0
 	sv.CrashIsViolation("delivered-tx-crashes-node")
 	m, _, _ := svBidEnv(true)
 	svMoreC18Unvalidated(m)
